@@ -345,7 +345,7 @@ func runC08(c *Check) {
 			}
 		}
 	}
-	c.Min("R1", "ParsePushDataScript sites reachable from IsRelevant", len(parses), 2)
+	c.Min("R1", "ParsePushDataScript sites reachable from IsRelevant", len(parses), 1)
 	famOut, famIn := false, false
 	for i, ps := range parses {
 		f, call := ps.fn, ps.call
@@ -415,7 +415,10 @@ func runC08(c *Check) {
 				continue
 			}
 			seen[x] = true
-			if ret, ok := x.Instrs[len(x.Instrs)-1].(*ssa.Return); ok && body[x] || ok && x == otherSucc {
+			if x == h {
+				continue
+			}
+			if ret, ok := x.Instrs[len(x.Instrs)-1].(*ssa.Return); ok && onlyViaError(x, otherSucc, body) {
 				for _, v := range resultValues(ret, 0) {
 					if b, isC := isConstBool(v); isC && b {
 						answersTrue = true
@@ -426,7 +429,7 @@ func runC08(c *Check) {
 					}
 				}
 			}
-			if body[x] {
+			if body[x] || !body[otherSucc] && len(seen) < 12 {
 				q = append(q, x.Succs...)
 			}
 		}
@@ -451,15 +454,13 @@ func runC08(c *Check) {
 		}
 		c.Decide(okCanon, "R1", key+"#push-canonicalised", call.Pos(), "provenance", nil,
 			"a parsed push goes through pushDataToHash on the success edge", "the parsed push data is not canonicalised with pushDataToHash before comparison")
-		// family
-		for _, x := range rootsAll(call.Call.Args[0]) {
-			if f := fieldOfAddr(x); f != nil {
-				if f.Name() == "LockingScript" {
-					famOut = true
-				}
-				if f.Name() == "UnlockingScript" {
-					famIn = true
-				}
+		// family (followed through helper parameters to the call sites inside the walk)
+		for _, name := range fieldNamesReaching(c, call.Call.Args[0], f, walkFns, 0) {
+			if name == "LockingScript" {
+				famOut = true
+			}
+			if name == "UnlockingScript" {
+				famIn = true
 			}
 		}
 	}
@@ -473,7 +474,20 @@ func runC08(c *Check) {
 			}
 			for br := 0; br < 2; br++ {
 				if equalEdge(func(x, y ssa.Value) bool {
-					return mentionsField(x, fHashes) && derivesFromCall(y, "spynode.pushDataToHash") != nil
+					if !mentionsField(x, fHashes) {
+						return false
+					}
+					if derivesFromCall(y, "spynode.pushDataToHash") != nil {
+						return true
+					}
+					// collector design: the canonical hashes arrive through a parameter / helper result
+					for _, r := range rootsAll(y) {
+						switch r.(type) {
+						case *ssa.Parameter, *ssa.Call:
+							return strings.HasSuffix(strings.TrimPrefix(y.Type().String(), "*"), "bitcoin.Hash20")
+						}
+					}
+					return false
 				}, true)(iff, br) {
 					nCmp++
 					okTrue := false
@@ -496,7 +510,7 @@ func runC08(c *Check) {
 			}
 		}
 	}
-	c.Min("R1", "push-vs-subscription compare sites", nCmp, 2)
+	c.Min("R1", "push-vs-subscription compare sites", nCmp, 1)
 
 	// ---- R2
 	c.Decide(famOut, "R2", "spynode.(*Node).IsRelevant#walks-output-scripts", isRel.Pos(), "provenance", nil, "output locking scripts are walked", "no script walk reads the outputs' locking scripts")
@@ -645,6 +659,23 @@ func runC08(c *Check) {
 						}
 					}
 					ok2, w2 := alwaysPrecededBy(ret, heads)
+					if !ok2 {
+						// an early "nothing subscribed" exit is behaviour-preserving for the script walks
+						empty := func(iff *ssa.If, br int) bool {
+							r, ok := edgeRel(iff, br)
+							if !ok {
+								return false
+							}
+							x, y, op := r.X, r.Y, r.Op
+							if lenOf(x) == nil {
+								x, y, op = y, x, swapOp(op)
+							}
+							l := lenOf(x)
+							k, isC := constInt(y)
+							return l != nil && loadOfField(l, fHashes) != nil && isC && ((k == 0 && (op == token.EQL || op == token.LEQ)) || (k == 1 && op == token.LSS))
+						}
+						ok2, w2 = mustPassOrHappen(ret, empty, heads)
+					}
 					c.Decide(ok2, "R5", "spynode.(*Node).IsRelevant#false-only-after-"+fam+"-scripts", ret.Pos(), "must-pass-through", w2,
 						"'not relevant' is answered only after the "+fam+" scripts were walked", "IsRelevant can answer false without walking the "+fam+" scripts")
 				}
@@ -657,6 +688,34 @@ func runC08(c *Check) {
 		c.Decide(ok, "R5", "spynode.(*Node).IsRelevant#contracts-only-if-subscribed", s.Pos(), "edge-cutset", w,
 			"contract actions count only when contracts are subscribed", "contract actions make a tx relevant although contracts are not subscribed")
 	}
+}
+
+// fieldNamesReaching lists the names of struct fields in the backward slice of v, following helper
+// parameters back to the arguments at the helper's call sites within fns.
+func fieldNamesReaching(c *Check, v ssa.Value, in *ssa.Function, fns []*ssa.Function, depth int) []string {
+	var out []string
+	if depth > 3 {
+		return out
+	}
+	for _, x := range rootsAll(v) {
+		if f := fieldOfAddr(x); f != nil {
+			out = append(out, f.Name())
+		}
+		if p, ok := x.(*ssa.Parameter); ok {
+			pi := paramIndex(in, p)
+			if pi < 0 {
+				continue
+			}
+			for _, g := range fns {
+				for _, s := range sitesIn(g) {
+					if s.CC.StaticCallee() == in && pi < len(s.CC.Args) {
+						out = append(out, fieldNamesReaching(c, s.CC.Args[pi], g, fns, depth+1)...)
+					}
+				}
+			}
+		}
+	}
+	return out
 }
 
 // canonOKShape: the function branches on len(b) == 20 with Hash160 only on the non-equal side.
@@ -717,6 +776,32 @@ func leavesBeforeHeader(b, h *ssa.BasicBlock, body map[*ssa.BasicBlock]bool) boo
 		q = append(q, x.Succs...)
 	}
 	return true
+}
+
+// onlyViaError: return block x is reached from the error successor without going through the loop
+// again (so it is an outcome of the failed parse, not of a later iteration).
+func onlyViaError(x, errSucc *ssa.BasicBlock, body map[*ssa.BasicBlock]bool) bool {
+	if x == errSucc {
+		return true
+	}
+	seen := map[*ssa.BasicBlock]bool{}
+	q := []*ssa.BasicBlock{errSucc}
+	for len(q) > 0 {
+		b := q[0]
+		q = q[1:]
+		if seen[b] {
+			continue
+		}
+		seen[b] = true
+		if b == x {
+			return true
+		}
+		if loopBody(b) != nil {
+			continue // a loop header: a new iteration starts here
+		}
+		q = append(q, b.Succs...)
+	}
+	return false
 }
 
 func functionAppends(f *ssa.Function) bool {
